@@ -333,8 +333,8 @@ impl ColorSpec {
 #[derive(Clone, Copy, Debug, PartialEq, Eq, Serialize, Deserialize)]
 pub struct ShapeSpec(pub u8);
 
-pub const N_SHAPES: u8 = 9;
-pub const SHAPE_PANICKY: u8 = 8;
+pub const N_SHAPES: u8 = 10;
+pub const SHAPE_PANICKY: u8 = 9;
 
 thread_local! {
     /// Countdown for the panicking callback: None = never panics.
@@ -356,6 +356,11 @@ fn cb_typed(y: usize, x: usize, m: Module) -> String {
         ModuleType::FinderPattern => format!("M{x},{y}h1v1h-1"),
         _ => format!("M{x}.5,{y}l.5,.5l-.5,.5l-.5,-.5z"),
     }
+}
+
+/// A user callback whose (valid) path data contains line breaks, tabs and runs of spaces.
+fn cb_multiline(y: usize, x: usize, _m: Module) -> String {
+    format!("M{x},{y}\n  h1  v1\th-1\r\n")
 }
 
 /// A user callback that fails at a simulator-chosen invocation (fault kind
@@ -387,6 +392,7 @@ impl ShapeSpec {
             5 => Shape::Diamond,
             6 => Shape::Command(cb_half),
             7 => Shape::Command(cb_typed),
+            8 => Shape::Command(cb_multiline),
             _ => Shape::Command(cb_panicky),
         }
     }
